@@ -15,7 +15,7 @@ pub static DEF: PropDef = PropDef {
     id: "C10",
     level: "exploration",
     rule: "each case: a random conformant tree with known- and unknown-size masters interleaved (and random Full collapsing) is turned into a call history (with write_raw() calls of unknown ids inserted at random positions in a third of the cases), truncated at a random point (so masters may be left open) and optionally ended with flush(); the destination is a recording sink and is inspected after every call. The monitor keeps its own shadow stack of open masters from the call history. Checks: (1) at every element/Full/End call that returned Ok while the shadow stack holds no known-size master, the destination content must be walked completely and exactly by the reference header decoder guided by the partial tree of tags accepted so far (open unknown-size masters included); (2) while a known-size master is open the destination length does not change; (3) after flush()/into_inner() the destination decodes to the whole tree with every master closed and nothing left over; (4) destination content only ever grows. distinct = (tree fingerprint, sequence of shadow-stack shapes (K/U strings) at observation points) plus each shape sequence by itself; non-trivial iff some observation point had depth >= 2 or the history was cut with masters open.",
-    assumptions: &["a fifth of the ordinary histories additionally contain one or two calls that the writer rejects (generated as in C19); rejected calls are not part of the tags written so far; all observations continue after them and judge the destination against the accepted calls only", "every eighth case is an unclosable-master history: a known-size master is given size width 1 and a Void child of 127-199 marker bytes, the history is cut before its End; flush(), flush(), End, flush(), into_inner() follow: the destination stays append-only, a failing call delivers none of the marker bytes, and any flush()/into_inner() that reports Ok must leave a destination that decodes to everything accepted", "the sink implements only io::Write, so bytes handed over cannot be retracted physically; the check is on completeness and timing", "unknown-size masters are never presented as Full (the writer ignores children there; outside C10's statement)"],
+    assumptions: &["a quarter of the ordinary histories continue after a flush() in the middle (which closes all open masters) with a second document under the same specification; the flush is an observation point like any other", "a fifth of the ordinary histories additionally contain one or two calls that the writer rejects (generated as in C19); rejected calls are not part of the tags written so far; all observations continue after them and judge the destination against the accepted calls only", "every eighth case is an unclosable-master history: a known-size master is given size width 1 and a Void child of 127-199 marker bytes, the history is cut before its End; flush(), flush(), End, flush(), into_inner() follow: the destination stays append-only, a failing call delivers none of the marker bytes, and any flush()/into_inner() that reports Ok must leave a destination that decodes to everything accepted", "the sink implements only io::Write, so bytes handed over cannot be retracted physically; the check is on completeness and timing", "unknown-size masters are never presented as Full (the writer ignores children there; outside C10's statement)"],
     cases_quick: 200_000,
     cases_thorough: 2_000_000,
     floors: &[("complete_prefix_checks", 5000), ("held_back_checks", 3000), ("distinct_nontrivial", 200), ("final_decodes", 2000)],
@@ -56,6 +56,12 @@ fn partial_tree(calls: &[WCall]) -> Vec<Node> {
             WCall::WriteRaw(id, data) => {
                 let n = Node::leaf(Item::Raw(*id, data.clone()));
                 attach(&mut stack, &mut roots, n);
+            }
+            WCall::Flush => {
+                // flush() closes every open master
+                while let Some(n) = stack.pop() {
+                    attach(&mut stack, &mut roots, n);
+                }
             }
             _ => {}
         }
@@ -273,6 +279,22 @@ fn run(c: &mut Case) {
             c.count("histories_with_rejected_calls");
         }
     }
+    // a quarter of the histories go on after a flush() in the middle: flush() closes every open master, the writer stays
+    // usable, and a second document (same specification) follows
+    let mut reused = false;
+    if c.rng.chance(1, 4) {
+        let tb = gen::TreeBounds { max_elems: 12, max_depth: 4, big_payloads: false, globals: true };
+        let mut t2 = gen::gen_tree(&mut c.rng, &doc.spec, &tb);
+        gen::assign_opts(&mut c.rng, &doc.spec, &mut t2, 8, 35);
+        if !t2.is_empty() {
+            let mut r3 = c.rng.fork();
+            let calls2 = calls_from_tree(&t2, &mut |_| r3.below(100) < p_collapse, deprecated);
+            calls.push(WCall::Flush);
+            calls.extend(calls2);
+            reused = true;
+            c.count("histories_continued_after_flush");
+        }
+    }
     let mut accepted: Vec<WCall> = Vec::new();
     let explicit_flush = c.rng.chance(1, 2);
     let mut w = TagWriter::new(ScriptedWrite::new().with_limits(if c.rng.chance(1, 4) { vec![7, 1, 3] } else { vec![] }));
@@ -328,7 +350,10 @@ fn run(c: &mut Case) {
             }
             WCall::Write(_, _) => observation = true,
             WCall::WriteRaw(..) => observation = true,
-            _ => {}
+            WCall::Flush => {
+                shadow.clear();
+                observation = true;
+            }
         }
         let known_open_after = shadow.iter().any(|k| *k);
         if known_open_before && known_open_after {
@@ -398,7 +423,7 @@ fn run(c: &mut Case) {
                 Err(e) => c.violation(format!("C10/final-incomplete/open{}", open_at_end.min(4)), format!("after into_inner() the destination does not decode to the whole tree: {}", e), wit(&calls, calls.len() - 1, &sink.data, &e)),
                 Ok(lay) => {
                     c.add("elements_in_final_output", lay.len() as u64);
-                    if !cut && !with_rejections && !calls.iter().any(|x| matches!(x, WCall::WriteRaw(..))) && flat(&full) != flat(&doc.tree) {
+                    if !cut && !with_rejections && !reused && !calls.iter().any(|x| matches!(x, WCall::WriteRaw(..))) && flat(&full) != flat(&doc.tree) {
                         // harness self-check: the partial-tree builder must reproduce the generated tree
                         panic!("partial_tree mismatch");
                     }
